@@ -197,13 +197,12 @@ def logged_chain(*args):
     import time
     import phyclone.run as prun
 
-    chain_num = args[16]
     path = os.environ["C18_STEER_LOG"]
     with open(path, "a") as fh:
-        fh.write("start %d %d\n" % (os.getpid(), chain_num))
+        fh.write("start %d -1\n" % os.getpid())
     res = _REAL_CHAIN[0](*args) if _REAL_CHAIN else prun.run_phyclone_chain(*args)
     with open(path, "a") as fh:
-        fh.write("end %d %d\n" % (os.getpid(), chain_num))
+        fh.write("end %d %d\n" % (os.getpid(), res["chain_num"]))  # the chain number as the result itself reports it
     return res
 
 
